@@ -259,20 +259,47 @@ def r3_scp(program, folder, rep):
     inst = qual(fn)
     mod = fn._module
     const_of = _folder_const(folder, mod)
+    from ..util import unroll_literal_loops
+    orig_fn = fn
+    fn, n_unrolled = unroll_literal_loops(fn)
     if any(isinstance(n, (ast.For, ast.While)) for n in ast.walk(fn)):
         raise AnalysisError("SCPPacket.packed_data builds the header in a "
-                            "loop: the part-by-part rule only reads "
-                            "straight-line code")
+                            "loop that cannot be unrolled: the part-by-part "
+                            "rule only reads straight-line code")
     T = Terms(fn)
     SELF = ("param", "self")
     rets = [r for r in returns_of(fn) if r.value is not None]
     if len(rets) != 1:
         raise AnalysisError("SCPPacket.packed_data: one return expected")
     rn = T.cfg.node_of(rets[0])
+    from ..terms import method_calls as _mc
 
-    def flat(t):
+    def flat(t, H=None):
         if t[0] == "binop" and t[1] == "Add":
-            return flat(t[2]) + flat(t[3])
+            return flat(t[2], H) + flat(t[3], H)
+        # b"".join(<list built here>): the elements in the order appended
+        if t[0] in ("call", "callv") and t[1][0] == "attr" and \
+                t[1][2] == "join" and t[1][1] == ("const", b"") and \
+                len(t[2]) == 1 and t[2][0][0] == "new" and H is not None:
+            L = t[2][0]
+            if L[2][0] != "list":
+                return [t]
+            parts = list(L[2][1:])
+            apps = [x for x in _mc(H, ("append", "extend", "insert"))
+                    if x[2] == L and H.live(x[0])]
+            apps.sort(key=lambda x: len(H.doms(x[0])))
+            for n_, c_, recv, args in apps:
+                if c_.func.attr != "append" or len(args) != 1 or \
+                        n_.id not in H.doms(rn):
+                    # an element that is only sometimes added under this
+                    # case's hypotheses
+                    parts.append(("opaque", "conditional append"))
+                else:
+                    parts.append(args[0])
+            out = []
+            for p_ in parts:
+                out.extend(flat(p_, H))
+            return out
         return [t]
 
     def packed(t):
@@ -289,7 +316,7 @@ def r3_scp(program, folder, rep):
         hyps = [(is_none(("attr", SELF, "arg%d" % (k + 1))), not pr)
                 for k, pr in enumerate(present)]
         H = T.under(*hyps)
-        parts = flat(decide_ites(H.term(rets[0].value, rn), hyps))
+        parts = flat(decide_ites(H.term(rets[0].value, rn), hyps), H)
         want = [("<2H", [("attr", SELF, "cmd_rc"), ("attr", SELF, "seq")])]
         for k, pr in enumerate(present):
             if pr:
